@@ -354,7 +354,7 @@ func spawnChild(mode string, env []string, args ...string) (*exec.Cmd, *bytes.Bu
 		cmd.Stderr = f
 		defer f.Close()
 	}
-	cmd.Env = append(append(os.Environ(), "C18_CHILD="+mode, "GORACE=halt_on_error=0 exitcode=0 log_path="+filepath.Join(h.RunDir(prop), "race-child")), env...)
+	cmd.Env = append(append(os.Environ(), "C18_CHILD="+mode), env...)
 	var out bytes.Buffer
 	cmd.Stdout = &out
 	if cmd.Stderr == nil {
